@@ -108,6 +108,25 @@ func pureC19(tr *Trace, br map[string]int) (out []Violation) {
 	seen := map[string]*big.Int{}
 	for i, s := range tr.Steps {
 		f := strings.Fields(s.Op)
+		if f[0] == "ownerof" && strings.HasPrefix(s.Res, "ok ") {
+			// the feeder's lookup must name the NFT it was asked about: same contract, the token id's value as a 32-byte word
+			tok := decTok(f[2])
+			v, ok := hexVal(tok)
+			if !ok || v.BitLen() > 256 {
+				continue
+			}
+			br["c19:owner-lookup"]++
+			wantData := "0x6352211e" + fmt.Sprintf("%064x", v)
+			wantTo := strings.ToLower(decTok(f[1]))
+			if !strings.HasPrefix(wantTo, "0x") {
+				wantTo = "0x" + wantTo
+			}
+			got := strings.Fields(s.Res)
+			if len(got) != 3 || decTok(strings.TrimPrefix(got[1], "to=")) != wantTo || decTok(strings.TrimPrefix(got[2], "data=")) != wantData {
+				out = append(out, viol("C19", "lookup-names-other-nft", i, "owner lookup for contract %s token %s sends %s, expected to=%s data=%s", decTok(f[1]), tok, s.Res, wantTo, wantData))
+			}
+			continue
+		}
 		if f[0] != "normhex" || !strings.HasPrefix(s.Res, "ok ") {
 			continue
 		}
